@@ -141,14 +141,68 @@ def gen_release_seq(rng):
     return lines, {'maxdepth': 1, 'pre': True, 'op_in_ng': False}
 
 
+def op_flag_case(rng, op):
+    """the flag rule for EVERY op of the catalogue, arguments from the per-op generators (boundary values included): operands
+    with random requires_grad flags, the op inside or outside no_grad; flags of all results are compared with the model"""
+    import gen_ops
+    gen = gen_ops.gen_basic if op in gen_ops.OPS_BASIC else gen_ops.gen_nn
+    leaves, args = gen(rng, op, False)
+    if op == 'pow' and rng.chance(.5):                 # boundary exponent: x ** 0 is still an op on x
+        args = [common.fbits(rng.pick([0.0, -0.0]))]
+        leaves = [(leaves[0][0], [abs(v) + 0.5 for v in leaves[0][1]]) + tuple(leaves[0][2:])]
+    leaves = [tuple(list(lf[:2]) + [rng.chance(.6) if len(lf) < 4 or lf[3] != 'i64' else False] + list(lf[3:])) for lf in leaves]
+    c = {'op': op, 'leaves': leaves, 'args': args}
+    prog = gen_ops.program(c, rng)
+    nl = len(leaves)
+    ng = rng.chance(.3)
+    lines = prog[:nl] + (['t ctx new ng', 't ctx enter 0'] if ng else []) + prog[nl:] + (['t ctx exit 0'] if ng else [])
+    io = tprog.run_program(lines)
+    res = io[nl + (2 if ng else 0)]
+    nout = 0 if res in ('rejected', 'hidden') or not res.startswith('t') else len(res.split(','))
+    lines += [f't flags {k}' for k in range(nl + nout)] + ['t modes']
+    if nout:
+        lines.append(f't op mul {nl},{nl}'); lines.append(f't flags {nl + nout}')      # the flag travels on
+    return lines, {'maxdepth': 1, 'pre': False, 'op_in_ng': ng}
+
+
 def cases(rng, tier):
     out = []
+    import gen_ops
+    for op in gen_ops.OPS_BASIC + gen_ops.OPS_NN:
+        for _ in range(6 if tier == 'quick' else 60):
+            try:
+                lines, stats = op_flag_case(rng, op)
+            except Exception:
+                continue
+            out.append({'lines': lines, 'stats': stats, 'desc': ' ; '.join(l for l in lines if not l.startswith(('t flags', 't modes', 't grad')))[:900]})
     for _ in range(150 if tier == 'quick' else 5000):
         lines, stats = gen_seq(rng, tier)
         out.append({'lines': lines, 'stats': stats, 'desc': ' ; '.join(l for l in lines if not l.startswith(('t flags', 't modes', 't grad')))[:900]})
     for _ in range(60 if tier == 'quick' else 2000):
         lines, stats = gen_release_seq(rng)
         out.append({'lines': lines, 'stats': stats, 'desc': ' ; '.join(l for l in lines if not l.startswith(('t flags', 't modes', 't grad')))[:900]})
+    if tier == 'thorough':
+        # EXHAUSTIVE sub-family: three pre-constructed context objects (no_grad, retain_grads, no_grad); every word of length <= 6
+        # over {enter c0, enter c1, enter c2, exit top, exit top by exception, op}; an op and the modes are observed after each
+        import itertools
+        for n in range(1, 7):
+            for word in itertools.product(range(6), repeat=n):
+                lines = [gen_dag.leaf_line((2,), [1.0, 2.0], True), 't ctx new ng', 't ctx new rg', 't ctx new ng']
+                active, nt, ok = [], 1, True
+                for k in word:
+                    if k < 3:
+                        if k in active: ok = False; break          # one object is not entered twice at once
+                        lines.append(f't ctx enter {k}'); active.append(k)
+                    elif k < 5:
+                        if not active: ok = False; break
+                        lines.append(f't ctx {"exit" if k == 3 else "exitexc"} {active.pop()}')
+                    else:
+                        lines.append('t op mul 0,0'); lines.append(f't flags {nt}'); nt += 1
+                    lines.append('t modes')
+                if not ok: continue
+                while active: lines.append(f't ctx exit {active.pop()}'); lines.append('t modes')
+                lines += ['t op mul 0,0', f't flags {nt}']
+                out.append({'lines': lines, 'stats': {'maxdepth': 3, 'pre': True, 'op_in_ng': True}, 'exhaustive': True, 'desc': ' ; '.join(lines)[:600]})
     corpus = [
         # a context object constructed while another is active, used later
         ['t ctx new ng', 't ctx enter 0', 't ctx new ng', 't ctx exit 0', 't modes', 't ctx enter 1', 't modes', 't ctx exit 1', 't modes'],
@@ -177,6 +231,7 @@ def nontrivial(c):
 
 def distribution(cases):
     d = {'maxdepth': max(c['stats']['maxdepth'] for c in cases)}
+    d['exhaustive: all well-formed words of length <= 6 over enter c0/c1/c2, exit, exit by exception, op'] = sum(1 for c in cases if c.get('exhaustive'))
     for c in cases:
         for l in c['lines']:
             k = ' '.join(l.split(' ')[1:3]) if l.startswith('t ctx') else l.split(' ')[1]
